@@ -96,3 +96,533 @@ func init() {
 }
 
 var _ = time.UTC
+
+func pad(n, w int) string {
+	s := itoa(n)
+	for len(s) < w {
+		s = "0" + s
+	}
+	return s
+}
+
+func itoa(n int) string {
+	if n == 0 {
+		return "0"
+	}
+	neg := n < 0
+	if neg {
+		n = -n
+	}
+	s := ""
+	for n > 0 {
+		s = string(rune('0'+n%10)) + s
+		n /= 10
+	}
+	if neg {
+		s = "-" + s
+	}
+	return s
+}
+
+func init() {
+	// C09: grids of MM x DD for many years in the four separator layouts, single-byte
+	// mutations of valid texts, and configuration sweeps (rule x MaxInputLength x string/bytes).
+	drivers["c09"] = func(d *Drv) {
+		parse := func(in []byte, rule int, T string) {
+			d.Do(Ev{"op": "date.parse", "in": B(in), "rule": rule, "T": T})
+			d.S.Boundary()
+		}
+		layouts := func(y string, m, dd int) [][]byte {
+			ms, ds := pad(m, 2), pad(dd, 2)
+			return [][]byte{[]byte(y + "-" + ms + "-" + ds), []byte(y + ms + ds), []byte(y + "-" + ms + ds), []byte(y + ms + "-" + ds)}
+		}
+		years := []string{"2000", "2023", "2024", "1900", "0000", "9999", "0004", "0100", "2100", "1600"}
+		long := []string{"10000", "99999", "123456", "1234567", "12345678", "123456789", "999999999", "000002024", "00400"}
+		mm := []int{0, 1, 2, 3, 4, 5, 6, 7, 8, 9, 10, 11, 12, 13, 14, 19, 20, 21, 29, 30, 31, 32, 99}
+		ddq := []int{}
+		for i := 0; i <= 33; i++ {
+			ddq = append(ddq, i)
+		}
+		ddq = append(ddq, 39, 40, 41, 50, 99)
+		if d.Thorough() {
+			for y := 1; y < 60; y++ {
+				years = append(years, pad(boundaryYears[y], 4))
+			}
+			mm, ddq = nil, nil
+			for i := 0; i < 100; i++ {
+				mm = append(mm, i)
+				ddq = append(ddq, i)
+			}
+		}
+		// (1) no limit: every year x MM x DD x 4 layouts, both rule values, both input types
+		d.Do(Ev{"op": "date.set", "max": 0})
+		k := 0
+		for _, y := range append(append([]string{}, years...), long...) {
+			for _, m := range mm {
+				k++
+				if !d.Mine(k) {
+					continue
+				}
+				for _, dd := range ddq {
+					for li, text := range layouts(y, m, dd) {
+						rule := (m + dd + li) % 2
+						T := "s"
+						if (m+dd)%3 == 0 {
+							T = "b"
+						}
+						parse(text, rule, T)
+						if li == 1 { // basic layout: always under both rules
+							parse(text, 1-rule, T)
+						}
+					}
+				}
+			}
+		}
+		// full 100 x 100 grid for two years in quick as well
+		if !d.Thorough() {
+			for _, y := range []string{"2024", "2023"} {
+				for m := 0; m < 100; m++ {
+					if !d.Mine(m) {
+						continue
+					}
+					for dd := 0; dd < 100; dd++ {
+						parse([]byte(y+"-"+pad(m, 2)+"-"+pad(dd, 2)), 0, "s")
+						parse([]byte(y+pad(m, 2)+pad(dd, 2)), 0, "b")
+					}
+				}
+			}
+		}
+		// (2) all 256 byte values at every position of valid texts
+		valid := []string{"2024-02-29", "20240229", "1999-12-31", "0001-01-01", "123456789-10-30", "1234567891030", "10000-01-01"}
+		for vi, v := range valid {
+			if !d.Mine(vi) {
+				continue
+			}
+			for pos := 0; pos < len(v); pos++ {
+				for c := 0; c < 256; c++ {
+					b := []byte(v)
+					b[pos] = byte(c)
+					parse(b, 0, "b")
+					if c%16 == 0 {
+						parse(b, 1, "s")
+					}
+				}
+			}
+			// insertions, deletions, truncations, extensions
+			for pos := 0; pos <= len(v); pos++ {
+				for _, c := range []byte{'0', '-', ' ', '\n', 0, 0xff, '1'} {
+					b := append(append(append([]byte{}, v[:pos]...), c), v[pos:]...)
+					parse(b, 0, "s")
+				}
+				if pos < len(v) {
+					parse(append(append([]byte{}, v[:pos]...), v[pos+1:]...), 0, "b")
+				}
+				parse([]byte(v[:pos]), 0, "s")
+			}
+		}
+		// (3) configuration sweep over a fixed corpus and seeded random texts
+		corpus := [][]byte{{}, []byte("2"), []byte("2024"), []byte("20240229"), []byte("2024-02-29"), []byte("2024-02-30"),
+			[]byte("20230229"), []byte("02024-02-29"), []byte("002024-02-29"), []byte("0020240229"), []byte("123456789-12-31"),
+			[]byte("1234567891231"), []byte("1234567890-12-31"), []byte("12345678901231"), []byte("2024-2-29"), []byte("2024-02-29 "),
+			[]byte(" 2024-02-29"), []byte("2024-02-29\n"), []byte("2024/02/29"), []byte("２０２４-02-29"), []byte("2024-13-01"), []byte("2024-00-10"),
+			[]byte("2024-01-00"), []byte("2024-01-32"), []byte("20240001"), []byte("2023-02-29"), []byte("1900-02-29"), []byte("2000-02-29"),
+			[]byte("99999-12-31"), []byte("999991231"), []byte("2024-04-31"), []byte("2024-06-31"), []byte("2024-09-31"), []byte("2024-11-31"),
+			[]byte("-2024-01-01"), []byte("+2024-01-01"), []byte("2024-01-01T00:00:00Z"), []byte("0000-00-00"), []byte("00000000")}
+		nr := 300
+		if d.Thorough() {
+			nr = 20000
+		}
+		alpha := []byte("0123456789--")
+		for i := 0; i < nr; i++ {
+			n := d.R.Intn(18)
+			b := make([]byte, n)
+			for j := range b {
+				b[j] = alpha[d.R.Intn(len(alpha))]
+			}
+			if d.R.Intn(4) == 0 && n > 0 {
+				b[d.R.Intn(n)] = byte(d.R.Intn(256))
+			}
+			corpus = append(corpus, b)
+		}
+		if d.Shard == 0 {
+			for _, max := range []int{0, 8, 10, 15, 1, 9, 11, 13} {
+				d.Do(Ev{"op": "date.set", "max": max})
+				for _, rule := range []int{0, 1, 2, 3} {
+					for _, c := range corpus {
+						parse(c, rule, "s")
+						parse(c, rule, "b")
+					}
+				}
+			}
+		}
+		d.Do(Ev{"op": "date.set", "max": 10})
+	}
+
+	// C11: binary codec
+	drivers["c11"] = func(d *Drv) {
+		unbin := func(in []byte, pre []int) {
+			d.Do(Ev{"op": "date.unbin", "in": B(in), "pre": pre})
+			d.S.Boundary()
+		}
+		enc := func(y, m, dd int) {
+			d.Do(Ev{"op": "date.bin", "a": []int{y, m, dd}})
+			d.S.Boundary()
+		}
+		yb := func(y int) []byte { return []byte{byte(uint32(y) >> 24), byte(uint32(y) >> 16), byte(uint32(y) >> 8), byte(uint32(y))} }
+		// (1) encode + round trip: all dates of a year range, boundary years, sampled huge years
+		y0, y1 := 1990, 2030
+		if d.Thorough() {
+			y0, y1 = -400, 9999
+		}
+		a, b := d.Span(y0, y1)
+		for y := a; y <= b; y++ {
+			for m := 1; m <= 12; m++ {
+				for dd := 1; dd <= daysIn(y, m); dd++ {
+					enc(y, m, dd)
+				}
+			}
+		}
+		ys := []int{-999999999, -999999998, -100000000, -16777217, -16777216, -65537, -65536, -32768, -401, -400, -257, -256, -255, -129, -128, -127, -100, -4, -1,
+			0, 1, 127, 128, 255, 256, 257, 32767, 32768, 65535, 65536, 9999, 10000, 16777215, 16777216, 16777217, 100000000, 999999998, 999999999}
+		for i, y := range ys {
+			if d.Mine(i) {
+				for m := 1; m <= 12; m++ {
+					enc(y, m, 1)
+					enc(y, m, daysIn(y, m))
+				}
+			}
+		}
+		nr := 2000
+		if d.Thorough() {
+			nr = 100000
+		}
+		for i := 0; i < nr/d.NShards; i++ {
+			y := d.R.Intn(1999999999) - 999999999
+			m := 1 + d.R.Intn(12)
+			enc(y, m, 1+d.R.Intn(daysIn(y, m)))
+		}
+		// (2) decode grid: (month byte, day byte) x years, valid version and length
+		pre := []int{2001, 2, 3}
+		gy := []int{2024, 2023}
+		if d.Thorough() {
+			gy = []int{2024, 2023, 1900, 2000, 0, -1, 9999, 999999999, -999999999}
+		}
+		for _, y := range gy {
+			for mb := 0; mb < 256; mb++ {
+				if !d.Mine(mb) {
+					continue
+				}
+				for db := 0; db < 256; db++ {
+					if !d.Thorough() && y != 2024 && (mb > 40 && mb < 250) {
+						continue
+					}
+					unbin(append(append([]byte{1}, yb(y)...), byte(mb), byte(db)), pre)
+				}
+			}
+		}
+		if d.Shard == 0 {
+			// (3) all 256 version bytes, all lengths 0..16, with valid and invalid tails
+			for v := 0; v < 256; v++ {
+				unbin(append(append([]byte{byte(v)}, yb(2024)...), 2, 29), pre)
+				unbin([]byte{byte(v)}, pre)
+				unbin(append(append([]byte{byte(v)}, yb(2024)...), 2, 29, 0), pre)
+			}
+			for n := 0; n <= 16; n++ {
+				for _, v := range []byte{1, 0, 2, 255} {
+					b := make([]byte, n)
+					for i := range b {
+						b[i] = byte(i + 1)
+					}
+					if n > 0 {
+						b[0] = v
+					}
+					if n > 6 {
+						b[5], b[6] = 2, 28
+					}
+					unbin(b, pre)
+					unbin(b, []int{1, 1, 1})
+				}
+			}
+		}
+		// (4) seeded random 7-byte strings (and random lengths)
+		for i := 0; i < nr*5/d.NShards; i++ {
+			n := 7
+			if d.R.Intn(8) == 0 {
+				n = d.R.Intn(12)
+			}
+			b := make([]byte, n)
+			for j := range b {
+				b[j] = byte(d.R.Intn(256))
+			}
+			if n > 0 && d.R.Intn(4) != 0 {
+				b[0] = 1
+			}
+			if n == 7 && d.R.Intn(2) == 0 {
+				b[5] = byte(d.R.Intn(14))
+				b[6] = byte(d.R.Intn(33))
+			}
+			unbin(b, []int{1999, 12, 31})
+		}
+	}
+
+	// C07: ordering and arithmetic
+	drivers["c07"] = func(d *Drv) {
+		cmp := func(a, b []int) { d.Do(Ev{"op": "date.cmp", "a": a, "b": b}); d.S.Boundary() }
+		next := func(a []int) []int {
+			y, m, dd := a[0], a[1], a[2]
+			if dd < daysIn(y, m) {
+				return []int{y, m, dd + 1}
+			}
+			if m < 12 {
+				return []int{y, m + 1, 1}
+			}
+			return []int{y + 1, 1, 1}
+		}
+		// (1) adjacent pairs
+		var ylist []int
+		if d.Thorough() {
+			a, b := d.Span(0, 9999)
+			for y := a; y <= b; y++ {
+				ylist = append(ylist, y)
+			}
+		} else {
+			for i, y := range boundaryYears {
+				if d.Mine(i) {
+					ylist = append(ylist, y)
+				}
+			}
+		}
+		for _, y := range ylist {
+			for m := 1; m <= 12; m++ {
+				for dd := 1; dd <= daysIn(y, m); dd++ {
+					a := []int{y, m, dd}
+					n := next(a)
+					if n[0] > 9999 {
+						continue
+					}
+					cmp(a, n)
+					if dd == 1 || dd >= 28 {
+						cmp(n, a)
+						cmp(a, a)
+					}
+				}
+			}
+		}
+		// (2) all pairs of a boundary-rich set
+		var set [][]int
+		add := func(y, m, dd int) {
+			if dd <= daysIn(y, m) {
+				set = append(set, []int{y, m, dd})
+			}
+		}
+		by := []int{0, 1, 4, 100, 400, 1582, 1899, 1900, 1901, 1970, 1999, 2000, 2001, 2023, 2024, 2025, 2100, 2262, 9998, 9999}
+		if d.Thorough() {
+			by = boundaryYears
+		}
+		for _, y := range by {
+			for _, md := range [][2]int{{1, 1}, {1, 31}, {2, 1}, {2, 28}, {2, 29}, {3, 1}, {6, 30}, {7, 1}, {12, 30}, {12, 31}} {
+				add(y, md[0], md[1])
+			}
+		}
+		if d.Thorough() {
+			for y := 2019; y <= 2026; y++ {
+				for m := 1; m <= 12; m++ {
+					add(y, m, 1)
+					add(y, m, 15)
+					add(y, m, daysIn(y, m))
+				}
+			}
+		}
+		for i, a := range set {
+			if !d.Mine(i) {
+				continue
+			}
+			for _, b := range set {
+				cmp(a, b)
+			}
+		}
+		// seeded random pairs
+		nr := 3000
+		if d.Thorough() {
+			nr = 200000
+		}
+		rd := func() []int {
+			y := d.R.Intn(10000)
+			m := 1 + d.R.Intn(12)
+			return []int{y, m, 1 + d.R.Intn(daysIn(y, m))}
+		}
+		for i := 0; i < nr/d.NShards; i++ {
+			a := rd()
+			b := rd()
+			if d.R.Intn(3) == 0 {
+				b[0] = a[0]
+				if b[2] > daysIn(b[0], b[1]) {
+					b[2] = 28
+				}
+			}
+			cmp(a, b)
+		}
+		// (3) Add over grids of (years, months, days) including negative and overflowing
+		bases := [][]int{{2024, 2, 29}, {2023, 1, 31}, {2000, 12, 31}, {1900, 3, 1}, {1, 1, 1}, {0, 1, 1}, {9999, 12, 31}, {2024, 8, 31}, {2023, 10, 31}, {1999, 12, 31}, {2100, 2, 28}, {2020, 5, 15}}
+		dys := []int{-2024, -400, -100, -4, -1, 0, 1, 3, 4, 100, 400, 7975}
+		dms := []int{-1200, -25, -24, -13, -12, -11, -2, -1, 0, 1, 2, 6, 11, 12, 13, 24, 25, 1200}
+		dds := []int{-146097, -36525, -1461, -366, -365, -61, -32, -31, -30, -29, -28, -2, -1, 0, 1, 2, 27, 28, 29, 30, 31, 32, 59, 60, 61, 365, 366, 1461, 36525, 146097}
+		k := 0
+		for _, a := range bases {
+			for _, dy := range dys {
+				for _, dm := range dms {
+					k++
+					if !d.Mine(k) {
+						continue
+					}
+					for _, dd := range dds {
+						if !d.Thorough() && (k+dd)%3 != 0 {
+							continue
+						}
+						d.Do(Ev{"op": "date.add", "a": a, "dy": dy, "dm": dm, "dd": dd})
+					}
+					d.S.Boundary()
+				}
+			}
+		}
+		for i := 0; i < nr/d.NShards; i++ {
+			d.Do(Ev{"op": "date.add", "a": rd(), "dy": d.R.Intn(201) - 100, "dm": d.R.Intn(401) - 200, "dd": d.R.Intn(20001) - 10000})
+			d.S.Boundary()
+		}
+		// (4) AddDuration around multiples of 24h
+		for i, a := range append(bases, set[:len(set)/4]...) {
+			if !d.Mine(i) {
+				continue
+			}
+			for _, days := range []int{-106751, -36525, -366, -365, -31, -2, -1, 0, 1, 2, 28, 29, 365, 366, 36525, 106750} {
+				for _, sn := range [][2]int{{0, 0}, {0, 1}, {0, -1}, {1, 0}, {-1, 0}, {86399, 999999999}, {-86399, -999999999}, {43200, 0}, {-43200, 0}, {3600, -5}, {-3600, 5}} {
+					if days == 106750 && sn[0] > 0 || days == -106751 && sn[0] < 0 {
+						continue
+					}
+					d.Do(Ev{"op": "date.adddur", "a": a, "days": days, "secs": sn[0], "nanos": sn[1]})
+				}
+			}
+			d.S.Boundary()
+		}
+		// (5) Time / Value, FromTime / Scan over fixed zones -12h..+14h near local and UTC midnight
+		for i, a := range set {
+			if !d.Mine(i) {
+				continue
+			}
+			d.Do(Ev{"op": "date.time", "a": a})
+			for _, off := range []int{-43200, -39600, -34200, -18000, -3600, -1, 0, 1, 3600, 12600, 19800, 20700, 34200, 43200, 45900, 50400} {
+				for _, hms := range [][4]int{{0, 0, 0, 0}, {0, 0, 0, 1}, {23, 59, 59, 999999999}, {12, 0, 0, 0}, {11, 59, 59, 0}, {13, 0, 0, 0}, {1, 0, 0, 0}, {22, 30, 0, 0}} {
+					if !d.Thorough() && (i+off/900+hms[0])%3 != 0 {
+						continue
+					}
+					d.Do(Ev{"op": "date.fromtime", "t": []int{a[0], a[1], a[2], hms[0], hms[1], hms[2], hms[3]}, "off": off})
+				}
+			}
+			d.S.Boundary()
+		}
+	}
+
+	// C15: the filter state machine over a 60-date window; all (from, to) x nil combinations,
+	// every probe of the window, mutation of the caller's variables after construction.
+	drivers["c15"] = func(d *Drv) {
+		var win [][]int
+		cur := []int{2023, 12, 20}
+		for len(win) < 24 {
+			win = append(win, cur)
+			y, m, dd := cur[0], cur[1], cur[2]
+			if dd < daysIn(y, m) {
+				cur = []int{y, m, dd + 1}
+			} else if m < 12 {
+				cur = []int{y, m + 1, 1}
+			} else {
+				cur = []int{y + 1, 1, 1}
+			}
+		}
+		for _, x := range [][]int{{2024, 2, 27}, {2024, 2, 28}, {2024, 2, 29}, {2024, 3, 1}, {2024, 3, 2}, {2023, 2, 28}, {2023, 3, 1},
+			{2024, 7, 30}, {2024, 7, 31}, {2024, 8, 1}, {2024, 8, 30}, {2024, 8, 31}, {2024, 9, 1}, {2024, 9, 30}, {2024, 10, 1}, {2024, 10, 31}, {2024, 11, 1},
+			{1999, 12, 31}, {2000, 1, 1}, {2000, 2, 29}, {0, 1, 1}, {0, 12, 31}, {1, 1, 1}, {9999, 12, 31}, {9999, 1, 1}, {2025, 1, 1}, {2025, 12, 31}, {2026, 1, 1},
+			{2022, 12, 31}, {2023, 1, 1}, {2023, 1, 31}, {2023, 2, 1}, {2024, 12, 31}, {2024, 1, 31}, {2024, 2, 1}, {2024, 4, 30}} {
+			win = append(win, x)
+		}
+		if !d.Thorough() {
+			// quick: every third date of the window as a bound, every date as a probe
+		}
+		step := 1
+		k := 0
+		for fi := -1; fi < len(win); fi += step {
+			for ti := -1; ti < len(win); ti += step {
+				k++
+				if !d.Mine(k) {
+					continue
+				}
+				if !d.Thorough() && fi >= 0 && ti >= 0 && (fi+2*ti)%4 != 0 {
+					continue
+				}
+				from, to := []int{}, []int{}
+				if fi >= 0 {
+					from = win[fi]
+				}
+				if ti >= 0 {
+					to = win[ti]
+				}
+				d.Do(Ev{"op": "date.freset", "st": 1})
+				d.Do(Ev{"op": "date.vars", "from": from, "to": to, "st": 1})
+				e := d.Do(Ev{"op": "date.fbuild", "st": 1})
+				if e["ok"] == true {
+					// the caller's variables change after construction (sometimes to nil, sometimes swapped)
+					switch k % 3 {
+					case 0:
+						d.Do(Ev{"op": "date.vars", "from": win[(k*7)%len(win)], "to": win[(k*11)%len(win)], "st": 1})
+					case 1:
+						d.Do(Ev{"op": "date.vars", "from": []int{}, "to": []int{}, "st": 1})
+					}
+					for _, p := range win {
+						d.Do(Ev{"op": "date.fcontains", "i": 1, "p": p, "st": 1})
+					}
+				}
+				d.S.Boundary()
+			}
+		}
+		// seeded random triples over 0000..9999 with several filters alive at once
+		nr := 200
+		if d.Thorough() {
+			nr = 5000
+		}
+		rd := func() []int {
+			if d.R.Intn(6) == 0 {
+				return []int{}
+			}
+			y := d.R.Intn(10000)
+			m := 1 + d.R.Intn(12)
+			return []int{y, m, 1 + d.R.Intn(daysIn(y, m))}
+		}
+		for i := 0; i < nr/d.NShards; i++ {
+			d.Do(Ev{"op": "date.freset", "st": 1})
+			nf := 0
+			for j := 0; j < 4; j++ {
+				a, b := rd(), rd()
+				if len(a) > 0 && len(b) > 0 && d.R.Intn(3) == 0 {
+					b = []int{a[0], a[1], 1 + d.R.Intn(daysIn(a[0], a[1]))}
+				}
+				d.Do(Ev{"op": "date.vars", "from": a, "to": b, "st": 1})
+				if e := d.Do(Ev{"op": "date.fbuild", "st": 1}); e["ok"] == true {
+					nf++
+				}
+				for q := 0; q < 6 && nf > 0; q++ {
+					p := rd()
+					if len(p) == 0 {
+						p = []int{2024, 2, 29}
+					}
+					if q < 2 && len(a) > 0 {
+						p = a
+					}
+					if q == 2 && len(b) > 0 {
+						p = b
+					}
+					d.Do(Ev{"op": "date.fcontains", "i": 1 + d.R.Intn(nf), "p": p, "st": 1})
+				}
+			}
+			d.S.Boundary()
+		}
+	}
+}
